@@ -92,7 +92,7 @@ public:
       h << "/* generated by cxx2c from the repository's current working tree — do not edit */\n";
       h << E.excTable() << "\n" << E.enums.str() << "\n" << E.structs.str() << "\n" << E.globals.str() << "\n" << E.protos.str() << "\n";
       std::ofstream c(OutPrefix + ".c");
-      c << "/* generated by cxx2c from the repository's current working tree — do not edit */\n" << E.macroDefaults.str() << "\n" << E.defs.str();
+      c << "/* generated by cxx2c from the repository's current working tree — do not edit */\n#ifndef VERIF_MEMCPY\n#define VERIF_MEMCPY memcpy\n#endif\n#ifndef VERIF_MEMMOVE\n#define VERIF_MEMMOVE memmove\n#endif\n" << E.macroDefaults.str() << "\n" << E.defs.str();
       std::ofstream j(OutPrefix + ".json");
       j << "{\n \"functions\": [\n";
       for (size_t i = 0; i < E.fnInfos.size(); ++i) {
